@@ -16,7 +16,9 @@ def run(tier):
     c.coverage["checks_by_kind"] = res.stats.get("by_check", {})
     c.coverage["rule"] = ("oceanic plates: 3 models x 3 ridge geometries (straight, two segments with a transform offset, oblique) x 3 spreading "
                           "velocities (ages for the constant-age model) x {constant 120 km, laterally varying 70-130 km} plate thickness; 14 vertical "
-                          "probes of 13 depths, 6 horizontal probes of 7 points away from the ridge, boundary values at 3 positions. Slabs: mass "
+                          "probes of 13 depths, 6 horizontal probes of 7 points away from the ridge, boundary values at 3 positions; on the sphere: half space "
+                          "and plate model x oblique ridge east / west of the +-180 meridian x plate on the same side / across the meridian x spreading "
+                          "velocity per ridge point {increasing, decreasing, equal}, 5 vertical probes of 13 depths and the top value. Slabs: mass "
                           "conserving (both reference models) and plate model, dips 30/60 (second segment curving), 3 velocities, 2 plate ages; a 21 x 61 "
                           "lattice of points in the plane across the slab. non-trivial: all cases")
     c.assumptions += ["TLC enumerates the cases and lays out the probe lines; the inequalities are checked numerically (slack 1e-9 relative)",
